@@ -1,5 +1,301 @@
-/-
-C16 — property theorems (stub: not built yet).
+import RegexVerif.Model.Class
+import RegexVerif.Lemmas.Class
+import RegexVerif.Lemmas.ClassCanon
+import RegexVerif.Lemmas.ClassBuild
+import RegexVerif.Generated.Class
+
+/-!
+C16 — character-class membership is exact set algebra.
+
+`RegexVerif.Class` (Model/Class.lean) mirrors `syntax/charclass.go`; leg K ties it to the Go code
+(structure of parsed classes, lookups, case equivalences).  The theorems below say that every lookup
+path of the model computes the set-algebra specification `memAlg`, and that every normalisation and
+building operation changes `memAlg` exactly as set algebra prescribes.  `cat` is the Unicode
+category oracle (arbitrary), runes are `Nat`, `maxRune = 0x10FFFF`.
 -/
 namespace RegexVerif.Props.C16
+open RegexVerif.Class
+
+/-- a concrete class used to show that hypotheses are satisfiable: `[a-cf-hk-mp-rt-vx-z\p{7}-[b-[^\p{2}]]]`
+(six ranges: the binary-search path; a category; two nested subtractions, the inner one negated) -/
+def sample : Class :=
+  .minus { ranges := [(97, 99), (102, 104), (107, 109), (112, 114), (116, 118), (120, 122)], cats := [(7, false)] }
+    (.minus { ranges := [(98, 98)] } (.leaf { cats := [(2, false)], neg := true }))
+
+/-- a toy oracle: category `id` holds the multiples of `id` -/
+def sampleCat : Nat → Nat → Bool := fun id ch => ch % id == 0
+
+/-- **The slow path computes set algebra.**  For a class whose range lists are sorted with
+non-decreasing ends (every class the parser or `canonicalize` produces; see `canonicalize_canonical`)
+`charInSlow` — linear scan for at most four ranges, binary search otherwise, the category loop,
+`negate`, the recursive `!sub.CharIn` which may read the subtractor's bitmap — equals
+((some range ∨ some category entry) xor negate) ∧ ¬ subtracted. -/
+theorem memImpl_eq_memAlg (cat : Nat → Nat → Bool) (c : Class) (ch : Nat)
+    (hl : Class.RangesOk c) (hb : BitmapOk cat c) : charInSlow cat c ch = memAlg cat c ch :=
+  charInSlow_eq_memAlg cat c ch hl hb
+
+example : Class.RangesOk sample ∧ BitmapOk sampleCat sample := by
+  have hs : strip sample = sample := by decide
+  refine ⟨⟨?_, ?_, ?_⟩, hs ▸ bitmapOk_strip sampleCat sample⟩ <;> (simp only [Class.RangesOk, LookupOk]; decide)
+
+example : charInSlow sampleCat sample 121 = true ∧ charInSlow sampleCat sample 98 = false ∧
+    charInSlow sampleCat sample 99 = true ∧ charInSlow sampleCat sample 100 = false ∧
+    charInSlow sampleCat sample 14 = true ∧ charInSlow sampleCat sample 1001 = true := by decide
+
+/-- **`CharIn` (fast path included) computes set algebra** whenever the bitmaps present are the ones
+`prepareASCIIBitmap` built (`BitmapOk`). -/
+theorem charIn_eq_memAlg (cat : Nat → Nat → Bool) (c : Class) (ch : Nat)
+    (hl : Class.RangesOk c) (hb : BitmapOk cat c) : charIn cat c ch = memAlg cat c ch := by
+  rw [charIn_eq_charInSlow cat c ch hb]; exact charInSlow_eq_memAlg cat c ch hl hb
+
+/-- **The ASCII bitmap is exact.**  After `prepareASCIIBitmap` (subtractor first, then 128 calls of
+`charInSlow`) the class has a bitmap, every bitmap in it agrees with the slow path, and `CharIn`
+answers every rune — below 128 from the bitmap, otherwise from the slow path — as the slow path
+of the class before preparation did. -/
+theorem bitmap_eq (cat : Nat → Nat → Bool) (c : Class) (hb : BitmapOk cat c) :
+    BitmapOk cat (prepare cat c) ∧ (prepare cat c).flat.ascii ≠ none ∧
+      ∀ ch, charIn cat (prepare cat c) ch = charInSlow cat c ch := by
+  obtain ⟨h1, h2, h3⟩ := prepare_spec cat c hb
+  exact ⟨h1, h3, fun ch => by rw [charIn_eq_charInSlow cat _ ch h1]; exact h2 ch⟩
+
+/-- the same, read at the level of bits: bit `ch` of the bitmap of a prepared class is set-algebra
+membership of `ch` (for classes with sorted range lists) -/
+theorem bitmap_bit_eq_memAlg (cat : Nat → Nat → Bool) (c : Class) (hl : Class.RangesOk c)
+    (bm : Nat × Nat) (h : (prepare cat (strip c)).flat.ascii = some bm) (ch : Nat) (hch : ch < 128) :
+    bitTest bm ch = memAlg cat (strip c) ch := by
+  have hb := bitmapOk_strip cat c
+  obtain ⟨h1, _, h3⟩ := bitmap_eq cat (strip c) hb
+  have hl' : Class.RangesOk (strip c) := rangesOk_strip c hl
+  have := h3 ch
+  rw [charInSlow_eq_memAlg cat _ ch hl' hb] at this
+  rw [← this]
+  unfold charIn viaBitmap
+  simp [hch, h]
+
+set_option maxRecDepth 20000 in
+example : (prepare sampleCat sample).flat.ascii = some (9295997013522923649, 5185679234845122624) := by decide
+
+/-- **The category loop is a disjunction** (after commit 4abd18d): `charInCategories` answers true
+exactly when some entry accepts the rune — a positive entry whose category contains it or a negated
+entry whose category does not. -/
+theorem catLoop_is_disjunction (cat : Nat → Nat → Bool) (cs : List (Nat × Bool)) (ch : Nat) :
+    catLoop cat cs ch = true ↔ ∃ c ∈ cs, cat c.1 ch ≠ c.2 := by
+  rw [catLoop_eq_inCats]
+  simp [inCats, catAccepts, List.any_eq_true]
+
+/-- `[\W\d]`-like witness of the old defect: a negated entry that rejects, then a positive one that accepts -/
+example : catLoop sampleCat [(2, true), (3, false)] 6 = true := by decide
+
+/-- **Singleton reduction (`reduceSet`).**  A class for which `IsSingleton` holds matches exactly
+`SingletonChar`; one for which `IsSingletonInverse` holds matches exactly the other runes. -/
+theorem singleton_reduce_mem (cat : Nat → Nat → Bool) (c : Class) :
+    (c.isSingleton = true → ∃ x, c.singletonChar = some x ∧ ∀ ch, memAlg cat c ch = decide (ch = x)) ∧
+    (c.isSingletonInverse = true → ∃ x, c.singletonChar = some x ∧ ∀ ch, memAlg cat c ch = !decide (ch = x)) := by
+  cases c with
+  | minus f s => simp [Class.isSingleton, Class.isSingletonInverse]
+  | leaf f =>
+    obtain ⟨ranges, cats, neg, anything, building, ascii⟩ := f
+    constructor
+    · intro h
+      simp only [Class.isSingleton, Bool.and_eq_true, Bool.not_eq_true', List.isEmpty_iff] at h
+      obtain ⟨⟨hn, hc⟩, hr⟩ := h
+      match ranges, hr with
+      | [r], hr =>
+        simp only [beq_iff_eq] at hr
+        refine ⟨r.1, rfl, fun ch => ?_⟩
+        subst hn hc
+        simp only [memAlg, Flat.memAlg, Flat.pos, inRanges_cons, inRanges_nil, inCats_nil, Bool.or_false, Bool.bne_false]
+        apply bool_eq_of_iff
+        rw [inRange_iff]; simp only [decide_eq_true_eq]; omega
+    · intro h
+      simp only [Class.isSingletonInverse, Bool.and_eq_true, List.isEmpty_iff] at h
+      obtain ⟨⟨hn, hc⟩, hr⟩ := h
+      match ranges, hr with
+      | [r], hr =>
+        simp only [beq_iff_eq] at hr
+        refine ⟨r.1, rfl, fun ch => ?_⟩
+        subst hn hc
+        simp only [memAlg, Flat.memAlg, Flat.pos, inRanges_cons, inRanges_nil, inCats_nil, Bool.or_false, Bool.bne_true]
+        congr 1
+        apply bool_eq_of_iff
+        rw [inRange_iff]; simp only [decide_eq_true_eq]; omega
+
+example : (Class.leaf { ranges := [(65, 65)] }).isSingleton = true ∧
+    (Class.leaf { ranges := [(65, 65)], neg := true }).isSingletonInverse = true := by decide
+
+/-! ## `canonicalize` -/
+
+/-- **`canonicalize` does not change membership** of any valid rune: sorting, merging overlapping or
+abutting ranges (including the early exit once a range reaches U+10FFFF), and the three normal forms
+("everything but a gap" → negated gap; one range covering everything → `anything`, categories
+dropped; ranges omit one character and there are categories → `anything` or negated singleton,
+decided by asking the categories about that character) all preserve
+(ranges ∨ categories) xor negate.  `hasSub` says whether the class has a subtractor (the normal forms
+are then skipped); the subtractor itself is untouched, so membership of the whole class is unchanged
+too (`canonicalize_mem_class`). -/
+theorem canonicalize_mem (cat : Nat → Nat → Bool) (hasSub : Bool) (f : Flat) (ch : Nat) (hch : ch ≤ maxRune) :
+    (f.canonicalize cat hasSub).memAlg cat ch = f.memAlg cat ch :=
+  Flat.canonicalize_mem cat hasSub f ch hch
+
+theorem canonicalize_mem_class (cat : Nat → Nat → Bool) (c : Class) (ch : Nat) (hch : ch ≤ maxRune) :
+    memAlg cat (c.withFlat (c.flat.canonicalize cat c.hasSub)) ch = memAlg cat c ch := by
+  cases c with
+  | leaf f => exact Flat.canonicalize_mem cat false f ch hch
+  | minus f s => simp only [Class.withFlat, Class.flat, Class.hasSub, memAlg, Flat.canonicalize_mem cat true f ch hch]
+
+/-- the normal forms at work: `[\x00-ac-\x{10FFFF}]` becomes `[^b]`, and `[\x00-46-\x{10FFFF}\p{5}]`
+(toy category 5 = multiples of 5, and '5' = 53 is not one) becomes `[^5]` -/
+example : (({ ranges := [(99, maxRune), (0, 97)] } : Flat).canonicalize sampleCat false) = { ranges := [(98, 98)], neg := true } := by
+  decide
+example : (({ ranges := [(54, maxRune), (0, 52)], cats := [(5, false)] } : Flat).canonicalize sampleCat false)
+    = { ranges := [(53, 53)], neg := true } := by decide
+example : (({ ranges := [(56, maxRune), (0, 54)], cats := [(5, false)] } : Flat).canonicalize sampleCat false)
+    = { ranges := [(0, maxRune)], anything := true } := by decide
+
+/-- **`canonicalize` produces the canonical form** the lookups rely on: if every range is a
+non-empty interval, the resulting list is sorted, its ranges neither overlap nor abut, and are
+non-empty — in particular it satisfies the precondition of `memImpl_eq_memAlg`. -/
+theorem canonicalize_canonical (cat : Nat → Nat → Bool) (hasSub : Bool) (f : Flat)
+    (hw : ∀ r ∈ f.ranges, r.1 ≤ r.2) :
+    Canon (f.canonicalize cat hasSub).ranges ∧ LookupOk (f.canonicalize cat hasSub).ranges :=
+  ⟨Flat.canonicalize_canon cat hasSub f hw, (Flat.canonicalize_canon cat hasSub f hw).lookupOk⟩
+
+example : (({ ranges := [(99, 102), (97, 100), (120, 120), (103, 103), (0x10FFFF, 0x10FFFF), (50, 0x10FFFF)] } : Flat).canonicalize sampleCat true).ranges
+    = [(50, 0x10FFFF)] := by decide
+example : (({ ranges := [(99, 102), (97, 100), (120, 120), (103, 103)] } : Flat).canonicalize sampleCat false).ranges
+    = [(97, 103), (120, 120)] := by decide
+
+/-! ## building operations -/
+
+/-- **`addRange` adds exactly the range to the positive side** (`addChar` is the case `lo = hi`):
+membership afterwards is ((old ranges ∨ categories ∨ lo ≤ ch ≤ hi) xor negate), whatever normal form
+`canonicalize` then chooses. -/
+theorem addRange_mem (cat : Nat → Nat → Bool) (hasSub : Bool) (f : Flat) (lo hi ch : Nat) (hch : ch ≤ maxRune) :
+    (f.addRange cat hasSub lo hi).memAlg cat ch = ((f.pos cat ch || inRange (lo, hi) ch) != f.neg) := by
+  unfold Flat.addRange
+  rw [Flat.canonicalize_mem cat hasSub _ ch hch]
+  simp only [Flat.memAlg, Flat.pos, inRanges_append, inRanges_cons, inRanges_nil, Bool.or_false]
+  cases inRanges f.ranges ch <;> cases inCats cat f.cats ch <;> simp
+
+/-- **The complement construction of `addNegativeRanges` is exact** on ascending, disjoint,
+non-empty ranges none of which ends at U+10FFFE: over the valid runes the constructed list contains
+exactly the runes outside the given ranges.  (The code tests `hi < MaxRune` strictly, so a list ending
+at U+10FFFE would lose U+10FFFF — see the counter-instance below; `posix_tables_ok` shows that no
+table in the source is of that kind.) -/
+theorem negatedRanges_mem (rs : List (Nat × Nat)) (hok : NegOk rs) (ch : Nat) (hch : ch ≤ maxRune) :
+    inRanges (negGo 0 rs) ch = !inRanges rs ch := by
+  rw [negGo_mem ch hch rs 0 (by decide) (fun _ _ => Nat.zero_le _) hok]
+  simp
+
+example : negGo 0 [(65, 90), (97, 122)] = [(0, 64), (91, 96), (123, maxRune)] := by decide
+/-- the latent off-by-one: the complement of `[\x00-\x{10FFFE}]` comes out empty -/
+example : negGo 0 [(0, maxRune - 1)] = [] ∧ ¬ NegOk [(0, maxRune - 1)] := by decide
+
+/-- **Facts regenerated from the source on every run:** every POSIX table of `addNamedASCII`
+satisfies the precondition of `negatedRanges_mem`, consists of non-empty intervals, and the
+linear-scan threshold of `charInSlow` is the one the model uses. -/
+theorem posix_tables_ok :
+    (∀ t ∈ RegexVerif.Generated.posixTables, NegOk t.2) ∧ RegexVerif.Generated.linearScanMax = 4 := by decide
+
+/-- **`scanCharSet` builds the union of its items.**  For a class `[` (`^`)? item… (`-[sub]`)? `]`
+read without IgnoreCase — every item added with `addRange` / `addRanges` / `addNegativeRanges` /
+`addCategories` while the class is marked `building`, then one full `canonicalize` — the head
+`CharSet` matches a valid rune exactly when (some item matches it) xor (`^` was written).
+Holds for every item list; `[:^name:]` tables must satisfy `NegOk` (they do: `posix_tables_ok`).
+Before commit 493eae7 this was false (`[\D5]` under ECMAScript). -/
+theorem build_mem (cat : Nat → Nat → Bool) (neg : Bool) (items : List Item) (hasSub : Bool)
+    (hok : ∀ it ∈ items, it.Ok) (ch : Nat) (hch : ch ≤ maxRune) :
+    (build cat neg items hasSub).memAlg cat ch = (items.any (fun it => it.mem cat ch) != neg) := by
+  have h0 : BuildInv cat neg ({ neg := neg, building := true } : Flat) :=
+    ⟨rfl, rfl, fun h => by cases h⟩
+  obtain ⟨hinv, hpos⟩ := foldl_addItem_spec cat neg items _ h0 hok
+  unfold build Flat.finish
+  rw [Flat.canonicalize_mem cat hasSub _ ch hch]
+  have := hpos ch hch
+  unfold buildItems
+  simp only [Flat.memAlg]
+  show ((List.foldl (Flat.addItem cat) _ items).pos cat ch != (List.foldl (Flat.addItem cat) _ items).neg) = _
+  rw [this, hinv.negEq]
+  simp [Flat.pos]
+
+/-- the class's ranges come out canonical (so the lookups are exact on it) when the items' ranges are
+non-empty intervals -/
+theorem build_canonical (cat : Nat → Nat → Bool) (neg : Bool) (items : List Item) (hasSub : Bool)
+    (hok : ∀ it ∈ items, it.Wf ∧ it.Ok) :
+    Canon (build cat neg items hasSub).ranges ∧ LookupOk (build cat neg items hasSub).ranges := by
+  have hw : (buildItems cat neg items).Wf :=
+    foldl_addItem_wf cat items _ (by intro r hr; cases hr) hok
+  exact canonicalize_canonical cat hasSub _ hw
+
+/-- ECMAScript `[\D5]`: `\D` is the pair of ranges around 0-9; the class must contain '5' (53), and
+`[^\p{2}\P{2}]` (a category and its negation) must be empty -/
+example : (build sampleCat false [.ranges [(0, 47), (58, maxRune)], .range 53 53] false) = { ranges := [(0, 47), (53, 53), (58, maxRune)] } ∧
+    (build sampleCat false [.ranges [(0, 47), (58, maxRune)]] false) = { ranges := [(48, 57)], neg := true } ∧
+    (build sampleCat false [.ranges [(0, 47), (58, maxRune)], .range 53 53] false).memAlg sampleCat 53 = true ∧
+    (build sampleCat true [.cats [(2, false)], .cats [(2, true)]] false).memAlg sampleCat 7 = false := by decide
+
+/-- **End to end (no IgnoreCase): a written class, parsed, prepared and looked up, is set algebra over
+its parts.**  For every class expression with nested subtractions, every item list (ranges
+non-empty, `[:^name:]` tables as in the source), every category oracle and every valid rune: parse
+each level as `scanCharSet` does, build the ASCII bitmaps as `Compile` does, look the rune up with
+`CharIn` (bitmap below 128, linear or binary search above) — the answer is
+((some item of the level matches) xor `^`) and not (the same for the subtracted class). -/
+theorem parsed_class_exact (cat : Nat → Nat → Bool) (a : Ast) (hok : ∀ it ∈ a.items, it.Wf ∧ it.Ok)
+    (ch : Nat) (hch : ch ≤ maxRune) :
+    charIn cat (prepare cat (strip (Ast.parse cat a))) ch = Ast.mem cat a ch ∧
+    charInSlow cat (strip (Ast.parse cat a)) ch = Ast.mem cat a ch := by
+  have hr : Class.RangesOk (Ast.parse cat a) ∧ memAlg cat (Ast.parse cat a) ch = Ast.mem cat a ch := by
+    induction a with
+    | leaf neg items =>
+      have h1 : ∀ it ∈ items, it.Wf ∧ it.Ok := fun it hit => hok it hit
+      exact ⟨(build_canonical cat neg items false h1).2, build_mem cat neg items false (fun it hit => (h1 it hit).2) ch hch⟩
+    | minus neg items sub ih =>
+      have h1 : ∀ it ∈ items, it.Wf ∧ it.Ok := fun it hit => hok it (List.mem_append_left _ hit)
+      obtain ⟨ih1, ih2⟩ := ih (fun it hit => hok it (List.mem_append_right _ hit))
+      refine ⟨⟨(build_canonical cat neg items true h1).2, ih1⟩, ?_⟩
+      simp only [Ast.parse, memAlg, Ast.mem, ih2, build_mem cat neg items true (fun it hit => (h1 it hit).2) ch hch]
+  have hb := bitmapOk_strip cat (Ast.parse cat a)
+  have hslow : charInSlow cat (strip (Ast.parse cat a)) ch = Ast.mem cat a ch := by
+    rw [charInSlow_eq_memAlg cat _ ch (rangesOk_strip _ hr.1) hb, memAlg_strip, hr.2]
+  exact ⟨by rw [(bitmap_eq cat _ hb).2.2 ch, hslow], hslow⟩
+
+/-- `[a-f\p{7}-[d-[^\p{2}]]]` (toy categories: multiples): 'd' (100, even) is not in the inner
+`[^\p{2}]`, so it is subtracted; 'c' (99) is in; 'p' (112 = 7·16) is in through the category -/
+example :
+    let a : Ast := .minus false [.range 97 102, .cats [(7, false)]] (.minus false [.range 100 100] (.leaf true [.cats [(2, false)]]))
+    (∀ it ∈ a.items, it.Wf ∧ it.Ok) ∧ Ast.mem sampleCat a 99 = true ∧ Ast.mem sampleCat a 100 = false ∧
+      Ast.mem sampleCat a 98 = true ∧ Ast.mem sampleCat a 112 = true ∧ Ast.mem sampleCat a 103 = false := by
+  refine ⟨?_, by decide⟩
+  intro it hit
+  simp [Ast.items] at hit
+  rcases hit with rfl | rfl | rfl | rfl <;> simp [Item.Wf, Item.Ok]
+
+/-- **`addSet` is union** on the positive side (callers require both classes un-negated and
+subtraction-free, `IsMergeable`): with truthful `anything` flags, membership afterwards is
+((own ranges ∨ own categories ∨ the other's ranges ∨ the other's categories) xor own negate). -/
+theorem addSet_mem (cat : Nat → Nat → Bool) (hasSub : Bool) (f s : Flat) (hf : f.AnyOk cat) (hs : s.AnyOk cat)
+    (ch : Nat) (hch : ch ≤ maxRune) :
+    (f.addSet cat hasSub s).memAlg cat ch = ((f.pos cat ch || s.pos cat ch) != f.neg) :=
+  Flat.addSet_mem cat hasSub f s hf hs ch hch
+
+example : (({ ranges := [(97, 99)], cats := [(7, false)] } : Flat).addSet sampleCat false { ranges := [(98, 104)], cats := [(7, true)] })
+    = { ranges := [(0, maxRune)], anything := true } := by decide
+
+/-- **`addCaseEquivalences` closes every level under case equivalence** (`orbit i` = the other
+members of `i`'s `SimpleFold` orbit): afterwards a valid rune is in the class exactly when, level
+by level, ((it or a rune it is an equivalent of lies in a range, or a category entry accepts it) xor
+negate) and it is not in the likewise folded subtractor — the subtractor is folded too (commit
+ec20cf4), and the normal forms are taken only afterwards (commit d62d6ac). -/
+theorem caseEquiv_mem (cat : Nat → Nat → Bool) (orbit : Nat → List Nat) (c : Class) (hc : Class.AnyOk cat c)
+    (ch : Nat) (hch : ch ≤ maxRune) :
+    memAlg cat (Class.addCaseEquivalences cat orbit c) ch = memAlgFold cat orbit c ch ∧
+    (∀ rs, foldHit orbit rs ch = true ↔ ∃ r ∈ rs, ∃ i, r.1 ≤ i ∧ i ≤ r.2 ∧ ch ∈ orbit i) :=
+  ⟨Class.addCaseEquivalences_mem cat orbit c hc ch hch, fun rs => foldHit_iff orbit rs ch⟩
+
+/-- `(?i)[a-z-[b]]` with a toy orbit (letter ↔ letter ∓ 32): 'B' (66) and 'b' are both removed -/
+example :
+    let orbit : Nat → List Nat := fun i => if 97 ≤ i ∧ i ≤ 122 then [i - 32] else if 65 ≤ i ∧ i ≤ 90 then [i + 32] else []
+    let c := Class.addCaseEquivalences sampleCat orbit (.minus { ranges := [(97, 122)] } (.leaf { ranges := [(98, 98)] }))
+    memAlg sampleCat c 66 = false ∧ memAlg sampleCat c 98 = false ∧ memAlg sampleCat c 67 = true := by decide
+
 end RegexVerif.Props.C16
